@@ -471,8 +471,11 @@ def run_program_fp2(ctx, count):
     run_program(ctx, count, mode="fp2")
 
 
-def run_program_rfmod(ctx, count):
-    """inovesa with RF phase modulation (or RF phase noise) and a tracked particle started on the centre of charge: main() calls
+def run_program_rfmod(ctx, count, linear=True):
+    """(linear=False, family st3kick: the same with the SINUSOIDAL RF, `--LinearRF false`: the bunch is short against the RF wave length, so the kick is
+    affine to well below the oracle's half cell of slack; a particle transport that evaluates the RF with other parameters than the same step's grid
+    table - construction-time phase, unit amplitude - leaves the centre of charge by the modulation's kick.)
+    inovesa with RF phase modulation (or RF phase noise) and a tracked particle started on the centre of charge: main() calls
     `rfm->apply()` then `rfm->applyToAll(trackme)`, so the particle must get the same step's kick as the grid.  With linear RF,
     no wake and weak damping the maps are affine and the recorded track (/Particles/data: the mesh point below the particle)
     must follow the recorded centre of charge (/BunchPosition, /EnergyAverage; same normalised units) within one cell."""
@@ -494,7 +497,7 @@ def run_program_rfmod(ctx, count):
                     f.write("%r %r\n" % (q, p))
             h5 = os.path.join(td, "out.h5")
             cmd = ["timeout", "120", tg["inovesa"], "--gui", "false", "-s", str(n), "-N", str(N), "-T", repr(T), "-n", "1", "-f", "8000",
-                   "--LinearRF", "true", "-Z", "", "--UseCSR", "false", "-I", "1e-6", "--tracking", tf, "--FPTrack", str(i % 2),
+                   "--LinearRF", "true" if linear else "false", "-Z", "", "--UseCSR", "false", "-I", "1e-6", "--tracking", tf, "--FPTrack", str(i % 2),
                    "-o", h5]
             if noise:
                 cmd += ["--RFPhaseSpread", repr(2.5 * amp)]
@@ -502,7 +505,7 @@ def run_program_rfmod(ctx, count):
                 cmd += ["--RFPhaseModAmplitude", repr(amp), "--RFPhaseModFrequency", repr(fmod)]
             r = subprocess.run(cmd, capture_output=True, text=True, env=env, cwd=td)
             case = dict(kind="program-rfmod", n=n, steps_per_Ts=N, rotations=T, noise=noise, amplitude_deg=amp, fmod=fmod, particles=pts,
-                        cmd=" ".join(cmd[2:]))
+                        linear_rf=linear, cmd=" ".join(cmd[2:]))
             if r.returncode != 0 or not os.path.exists(h5):
                 ctx.violation("impl-oracle", "inovesa failed with RF modulation and tracking (rc=%d)" % r.returncode, case=case,
                               observed=(r.stdout + r.stderr)[-600:], sig=dict(kind="program-rfmod", clause="ran"))
@@ -545,8 +548,8 @@ def run_program_rfmod(ctx, count):
                 if not ok:
                     break
             ctx.extra.setdefault("program_rfmod_runs", []).append(dict(n=n, noise=noise, records=nrec, largest_energy_change_of_one_step_in_cells=float(moved)))
-            ctx.case_done(("program-rfmod", i, n, noise), moved >= 2)
-            ctx.count("program-rfmod:%s" % ("noise" if noise else "modulation"))
+            ctx.case_done(("program-rfmod", i, n, noise, linear), moved >= 2)
+            ctx.count("program-rfmod:%s%s" % ("noise" if noise else "modulation", "" if linear else "-sinusoidal-rf"))
 
 
 def _h5vals(text, path="/Particles/data"):
@@ -611,6 +614,13 @@ def run(ctx, only_case=None):
     run_program(ctx, 4 if q else 12)
     run_program_fp2(ctx, 2 if q else 8)
     run_program_rfmod(ctx, 2 if q else 10)
+    # (family st3kick) sinusoidal RF + dynamic RF + tracking at program level, on its own PRNG (the draws of the other stages stay as they were)
+    import random as _random
+    _saved, ctx.rng = ctx.rng, _random.Random(ctx.seed * 1000003 + 107)
+    try:
+        run_program_rfmod(ctx, 2 if q else 10, linear=False)
+    finally:
+        ctx.rng = _saved
     ctx.extra["correspondence_disagreements"] = len(dis)
     ctx.assumptions += ["exact-arithmetic model; rounding handled by the exact/tolerance streams (DESIGN 3); the clamp is exact in float, so the "
                         "inside-grid theorem transfers to the float code whatever the rounding of the unclamped value",
